@@ -11,7 +11,9 @@ def run(ctx):
     if ctx.tier == "quick":
         # all five vote kinds, two hashes, three validators, stakes hitting 40/80% exactly;
         # received certificates interleaved
-        s = P.scn(votes=votes, certs=[("nf", 5, "A"), ("skip", 5, "-")])
+        # (a received Notar certificate may precede the votes: certificates the pool then creates itself must
+        #  still be created - and stored - exactly once)
+        s = P.scn(votes=votes, certs=[("nf", 5, "A"), ("skip", 5, "-"), ("notar", 5, "A")])
         P.run_model(ctx, "slot_221", [2, 2, 1], 0, 7, [s], INVS, P.rel_c03, sample=250000,
                     witnesses=["W_CertCreated"], scale=3 * 10**18)
     else:
